@@ -11,10 +11,11 @@ import ParanoidModel.Driver.Ec
 import ParanoidModel.Driver.NTheory
 import ParanoidModel.Driver.LinAlg
 import ParanoidModel.Driver.Lattice
+import ParanoidModel.Driver.Hnp
 open Paranoid.Driver
 
 /-- all dispatchers, tried in order. -/
-def dispatchers : List Dispatcher := [basicOps, nt19Ops, ntheoryOps, factoringOps, rsaCheckOps, ecdsaOps, closedFormOps, rngOps, bmOps, bitseqOps, bookkeepingOps, suiteOps, ecOps, latticeOps, linalgOps]
+def dispatchers : List Dispatcher := [basicOps, nt19Ops, ntheoryOps, factoringOps, rsaCheckOps, ecdsaOps, closedFormOps, rngOps, bmOps, bitseqOps, bookkeepingOps, suiteOps, ecOps, latticeOps, linalgOps, hnpOps]
 
 def respond (regs : List (String × String)) (line : String) : String :=
   let toks := ((line.trimAscii.toString.splitOn " ").filter (· ≠ "")).map fun t =>
